@@ -27,7 +27,11 @@ class FileManager:
         if not zpage.exists():
             return Error(f"Page does NOT exist: {zpage}")
 
-        zlines = zpage.read_text().split("\n")
+        zcontents = zpage.read_text()
+        if not zcontents.endswith("\n"):
+            # Otherwise, the last line of the page would be overwritten below.
+            zcontents += "\n"
+        zlines = zcontents.split("\n")
         in_note = False
         start_idx = len(zlines) - 1
         for i, line in enumerate(zlines):
@@ -37,11 +41,11 @@ class FileManager:
                 in_note = False
                 start_idx = i
         end_idx = start_idx + 1
-        new_zlines = (
-            zlines[:start_idx]
-            + note.to_string().split("\n")
-            + zlines[end_idx:]
-        )
+        note_lines = note.to_string().split("\n")
+        if all(line.startswith("#") for line in zlines[:start_idx]):
+            # A blank line MUST separate the page's header from its first note.
+            note_lines = [""] + note_lines
+        new_zlines = zlines[:start_idx] + note_lines + zlines[end_idx:]
         new_zcontents = "\n".join(new_zlines)
         zpage.write_text(new_zcontents)
         return None
